@@ -79,8 +79,6 @@ theorem IxOps.le {a b : Ix} (h : IxOps i a b) (h0 : IdxLe i a) : IdxLe i b := by
 def Stable (k : String) : Prop :=
   (∀ n, lc k ≠ lc ("peer.~:service." ++ n)) ∧ (∀ n, lc k ≠ lc ("peer.~:node." ++ n))
 
-theorem idxVal_congr (ix : Ix) {k k' : String} (h : lc k = lc k') : idxVal ix k = idxVal ix k' := by
-  unfold idxVal idxGet; rw [h]
 
 /-- rows outside the deletable families never go down during a command -/
 theorem IxOps.mono {a b : Ix} (h : IxOps i a b) (h0 : IdxLe i a) {k : String} (hk : Stable k) :
@@ -461,30 +459,31 @@ theorem tbl_svcInsert (s : State) (v : Svc) (hv : v.modify = i) : Tbl1 i s (svcI
 
 /-! ### the ladder instance and `apply` -/
 
-theorem tbl_closed (i : Nat) (s0 : State) : PrimClosed i (fun _ => True) (fun _ _ _ => True) (fun _ => True) (Tbl1 i s0) where
+theorem tbl_closed (i : Nat) (s0 : State) : PrimClosed i Guard.any (Tbl1 i s0) where
   kvInsert s e he h := h.trans (tbl_kvInsert s e he)
   kvDelete s s' k hr h := h.trans (tbl_kvDelete hr)
   kvDeleteTree s p _ h := h.trans (tbl_kvDeleteTree s p)
   removeSessionRow s id h := h.trans (tbl_removeSessionRow s id)
   invalidateKeys s sess h := h.trans (tbl_invalidateKeys s sess)
   dropSessionRefs s id h := h.trans (tbl_dropSessionRefs s id)
-  checkPrep s s1 p hc hc1 md hr h := h.trans (tbl_checkPrep hr)
-  checkFinish s p hc md h := h.trans (tbl_checkFinish s p hc md)
+  checkPrep s s1 p hc hc1 md hr _ h := h.trans (tbl_checkPrep hr)
+  checkFinish _ _ s p _ hc1 md _ _ _ _ h := h.trans (tbl_checkFinish s p hc1 md)
+  chkRows _ _ _ _ := trivial
   insertSession s x h := h.trans (tbl_insertSession s x)
   pqSet s s' id sess hr h := h.trans (tbl_pqSet hr)
   pqDelete s id h := h.trans (tbl_pqDelete s id)
   nodeInsert s n hn _ h := h.trans (tbl_nodeInsert s n hn)
   nodeNames _ _ _ _ := trivial
   deleteCheckPre s node id x _ h := h.trans (tbl_deleteCheckPre s node id x)
-  deleteServicePost s node id v _ h := h.trans (tbl_deleteServicePost s node id v)
-  deleteNodePost s name h := h.trans (tbl_deleteNodePost s name)
+  deleteServicePost s node id v _ _ _ h := h.trans (tbl_deleteServicePost s node id v)
+  deleteNodePost s name _ _ _ h := h.trans (tbl_deleteNodePost s name)
   bumpServiceIdx s name h := h.trans (tbl_bump s name)
-  svcInsert s v hv _ _ h := h.trans (tbl_svcInsert s v hv)
+  svcInsert s v hv _ _ _ h := h.trans (tbl_svcInsert s v hv)
 
 /-- every command: whenever one of the six result tables changes, its index row is written -/
 theorem tbl_apply (s : State) (i : Nat) (c : Cmd) : Tbl1 i s (apply s i c).1 := by
   by_cases hc : ∀ u, c ≠ .reap u
-  · exact pc_apply (tbl_closed i s) c hc (fun _ _ => trivial) (fun _ _ => trivial) (fun _ _ => trivial) (.refl s)
+  · exact pc_apply (tbl_closed i s) c hc (Cmd.ok_any c) (.refl s)
   · have : ∃ u, c = .reap u := by
       cases c <;> simp at hc ⊢
     obtain ⟨u, rfl⟩ := this
